@@ -15,6 +15,8 @@ import Verif.Model.AcmeChallenge
        w=da authz= json= errf= b64= empty= wf= cbor= fmt= en= fpne= azdb= + per-format facts (see `daIn?`)
     op=handler <all fields of op=validate> chex=0|1 owner=0|1 azurl=own|foreign|foreignother|missing fazst= fazexp=   (api.GetChallenge + polls)
     op=types idt=ip|dns|pi|wu|wd|other raw=x..
+    op=e2e <fields of op=handler when the picked challenge is offered> pch= pfmt= mig=0|1 idt= raw= pick=<type>   (full route on a real authority)
+    op=conv pch=<names> pfmt=<names> proots=<n> via=none|json|linkedca|linkedca2        (provisioner configuration glue)
     op=rev ip=x..
     op=src fact=status-writers|api-status-writers|authz-updaters|api-authz-updaters|chall-updaters|dispatch|types|handler-order
 
@@ -204,6 +206,17 @@ def idt? : String → Option IdType
   | "ip" => some .ip | "dns" => some .dns | "pi" => some .permanentIdentifier
   | "wu" => some .wireUser | "wd" => some .wireDevice | "other" => some .other | _ => none
 
+/-- the provisioner as served: configured lists, taken through the admin database when `mig=1` -/
+def served? (kv : List (String × String)) : Option ProvCfg := do
+  let pch ← list? "," str? (← lookup kv "pch")
+  let pfmt ← list? "," str? (← lookup kv "pfmt")
+  let mig ← bool? (← lookup kv "mig")
+  let p : ProvCfg := ⟨pch, pfmt, 0⟩
+  pure (if mig then migrate p else p)
+
+def fmtName : AttFormat → Option Str
+  | .apple => some (Verif.s "apple") | .step => some (Verif.s "step") | .tpm => some (Verif.s "tpm") | .other => none
+
 def evalValidate (handler : Bool) (kv : List (String × String)) : Option String := do
   let typ ← typ? (← lookup kv "typ")
   let status ← status? (← lookup kv "st")
@@ -216,7 +229,13 @@ def evalValidate (handler : Bool) (kv : List (String × String)) : Option String
   let dbOk ← bool? (← lookup kv "db")
   let cmp ← bool? (← lookup kv "cmp")
   let tab ← list? "," hentry? (← lookup kv "h")
-  let w ← world? kv
+  let w0 ← world? kv
+  -- op=e2e: whether the attestation format is enabled follows from the provisioner configuration
+  let w : World := match w0, served? kv with
+    | .attest i, some q => (match fmtName i.format with
+        | some n => .attest { i with enabled := isFormatEnabled q n }
+        | none => w0)
+    | _, _ => w0
   -- the owning authorization as stored before the call (default: pending, not expired)
   let az : AzRec := ⟨((lookup kv "azst").bind status?).getD .pending, ((lookup kv "azexp").bind bool?).getD false⟩
   let foreign := ((lookup kv "azforeign").bind bool?).getD false
@@ -230,7 +249,7 @@ def evalValidate (handler : Bool) (kv : List (String × String)) : Option String
   if status = .pending ∧ need.any (fun p => !(tab.any (·.1 = p))) then pure "nohash"
   else if handler then
     -- op=handler: api.GetChallenge on the stored challenge, then api.GetAuthorization polls
-    let req : HReq := ⟨(← bool? (← lookup kv "chex")), (← bool? (← lookup kv "owner")), (← azUrl? (← lookup kv "azurl"))⟩
+    let req : HReq := ⟨((lookup kv "authed").bind bool?).getD true, (← bool? (← lookup kv "chex")), (← bool? (← lookup kv "owner")), (← azUrl? (← lookup kv "azurl"))⟩
     let faz : AzRec := ⟨((lookup kv "fazst").bind status?).getD .pending, ((lookup kv "fazexp").bind bool?).getD false⟩
     match getChallenge (mkHash tab) cfg dbOk ch w req with
     | .crash => pure "crash"
@@ -257,15 +276,52 @@ def eval (line : String) : Option String := do
   match (← lookup kv "op") with
   | "validate" => evalValidate false kv
   | "handler" => evalValidate true kv
+  | "e2e" =>
+    let q ← served? kv
+    let t ← idt? (← lookup kv "idt")
+    let raw ← str? (← lookup kv "raw")
+    let pick ← lookup kv "pick"
+    let (v, wild, tys) := offered q t raw
+    let head := s!"offered={if tys.isEmpty then "-" else ",".intercalate (tys.map typS)} val={xs v} wild={if wild then 1 else 0}"
+    if !(tys.map typS).contains pick then pure (head ++ " | notoffered")
+    else
+      let value ← str? (← lookup kv "val")
+      if value ≠ v then pure (head ++ " | stored-value-differs")
+      else pure (head ++ " | " ++ (← evalValidate true kv))
   | "types" =>
     let t ← idt? (← lookup kv "idt")
     let raw ← str? (← lookup kv "raw")
     let (v, w, tys) := newAuthorization t raw
     pure s!"offered={if tys.isEmpty then "-" else ",".intercalate (tys.map typS)} val={xs v} wild={if w then 1 else 0}"
+  | "conv" =>
+    let pch ← list? "," str? (← lookup kv "pch")
+    let pfmt ← list? "," str? (← lookup kv "pfmt")
+    let roots ← (← lookup kv "proots").toNat?
+    let via ← lookup kv "via"
+    let p : ProvCfg := ⟨pch, pfmt, roots⟩
+    let names (l : List String) : String := if l.isEmpty then "-" else ",".intercalate l
+    -- `Init` refuses names it does not know; the conversion through linkedca silently drops them
+    let six : List Str := [ChType.http01, .dns01, .tlsalpn01, .deviceAttest01, .wireOidc01, .wireDpop01].map ChType.name
+    let valid := pch.all (fun n => six.contains (Str.lower n)) && pfmt.all (fun n => linkedcaFormats.contains (Str.lower n))
+    let served : Option ProvCfg :=
+      if via = "linkedca" then some (migrate p)
+      else if via = "linkedca2" then some (migrate (migrate p))
+      else if valid then some p else none
+    match served with
+    | none => pure "initerror"
+    | some q =>
+      let en := [ChType.http01, .dns01, .tlsalpn01, .deviceAttest01, .wireOidc01, .wireDpop01].filter (isChallengeEnabled q)
+      let fm := ["apple", "step", "tpm", "packed", "STEP"].filter (fun f => isFormatEnabled q (Verif.s f))
+      let off (t : IdType) (raw : String) : String := names ((offered q t (Verif.s raw)).2.2.map typS)
+      pure s!"enabled={names (en.map typS)} fmts={names fm} roots={q.roots} dns={off .dns "example.com"} wild={off .dns "*.example.com"} ip={off .ip "192.0.2.7"} pi={off .permanentIdentifier "12345678"}"
   | "src" =>
     let trip (l : List (String × String × String)) : String :=
       if l.isEmpty then "-" else ",".intercalate (l.map fun (f, v, x) => s!"{f}:{v}={x}")
     let names (l : List String) : String := if l.isEmpty then "-" else ",".intercalate l
+    let conv (t : String × List (String × String)) : String :=
+      ",".intercalate (("switch:" ++ t.1) :: t.2.map fun (a, b) => s!"{a}>{b}")
+    let enabledS (t : List String × String × String) : String :=
+      s!"default={"+".intercalate t.1};override-if={t.2.1};match={t.2.2}"
     match (← lookup kv "fact") with
     | "status-writers" => pure (trip Src.statusWriters)
     | "api-status-writers" => pure (trip Src.apiStatusWriters)
@@ -279,6 +335,18 @@ def eval (line : String) : Option String := do
           | some (cond, extra) => s!";if:{cond}>{"+".intercalate extra}"
           | none => ""))
     | "handler-order" => pure Src.handlerOrder
+    | "client-shape" => pure Src.clientShape
+    | "route-challenge" => pure Src.routeChallenge
+    | "route-authz" => pure Src.routeAuthz
+    | "const-prov-challenges" => pure (",".intercalate (Src.constProvChallenges.map fun (a, b) => s!"{a}={b}"))
+    | "const-prov-formats" => pure (",".intercalate (Src.constProvFormats.map fun (a, b) => s!"{a}={b}"))
+    | "const-acme-challenges" => pure (",".intercalate (Src.constAcmeChallenges.map fun (a, b) => s!"{a}={b}"))
+    | "conv-challenges-to-linkedca" => pure (conv Src.convChallengesToLinkedca)
+    | "conv-challenges-to-certificates" => pure (conv Src.convChallengesToCertificates)
+    | "conv-formats-to-linkedca" => pure (conv Src.convFormatsToLinkedca)
+    | "conv-formats-to-certificates" => pure (conv Src.convFormatsToCertificates)
+    | "enabled-challenges" => pure (enabledS Src.enabledChallenges)
+    | "enabled-formats" => pure (enabledS Src.enabledFormats)
     | _ => pure "unknown-fact"
   | "rev" =>
     let ip ← str? (← lookup kv "ip")
